@@ -144,8 +144,11 @@ func (r OpResult) String() string {
 const libPrefix = "github.com/google/jsonschema-go/jsonschema."
 
 // Op runs f as one operation: step budget, recover, classification.
-func Op(f func()) (res OpResult) {
-	simrt.SetStepBudget(DefaultBudget)
+func Op(f func()) (res OpResult) { return OpBudget(DefaultBudget, f) }
+
+// OpBudget is Op with an explicit step budget.
+func OpBudget(budget int64, f func()) (res OpResult) {
+	simrt.SetStepBudget(budget)
 	simrt.BeginOp(0)
 	defer func() {
 		if r := recover(); r != nil {
